@@ -169,6 +169,11 @@ inductive Expr where
   | nospace (chars : Str) (e : Expr)
   | suppress (lit : Str) (e : Expr)
   | unless (b : Bool) (e : Expr)
+  /-- `TagF(f)`, `StyleF(f)` with functions that look at the value (the harness' `tagOfValue`, `styleOfValue`) -/
+  | tagF (e : Expr)
+  | styleF (e : Expr)
+  /-- `UnlessF(func(c) bool { return test(c) })` -/
+  | unlessF (t : Test) (e : Expr)
   | shift (n : Int) (e : Expr)
   | list (div : Str) (e : Expr)
   | uniqueList (div : Str) (e : Expr)
@@ -195,6 +200,15 @@ def renderCtx (c : Ctx) : List Str :=
     "e=".toList ++ lookupEnv c.env envKey, "d=".toList ++ c.dir ]
 
 def mkValue (v : Str) : RawValue := { value := v, display := v }
+
+/-- the function handed to `TagF` by the harness: the first character of the value decides -/
+def tagOfValue (v : Str) : Str :=
+  match v with
+  | [] => "empty".toList
+  | c :: _ => "t-".toList ++ [c]
+
+/-- the function handed to `StyleF` by the harness -/
+def styleOfValue (v : Str) : Str := if Str.hasPrefix v ['a'] then "red".toList else "blue".toList
 
 def mapValues (f : RawValue → RawValue) (r : Invoked) : Invoked := (r.1, r.2.map f)
 
@@ -267,6 +281,9 @@ def invoke : Expr → Ctx → Invoked
     let r := invoke e c
     ({ r.1 with messages := r.1.messages.filter (fun m => !Str.contains m lit) }, r.2)
   | .unless b e, c => if b then ({}, []) else invoke e c
+  | .tagF e, c => mapValues (fun v => { v with tag := tagOfValue v.value }) (invoke e c)
+  | .styleF e, c => mapValues (fun v => { v with style := styleOfValue v.value }) (invoke e c)
+  | .unlessF t e, c => if t.eval c then ({}, []) else invoke e c
   | .shift n e, c =>
     if n < 0 then ({ messages := [shiftMsg n] }, [])
     else invoke e { c with args := c.args.drop n.toNat }
